@@ -36,10 +36,19 @@ type RWMutex struct{ mu sync.RWMutex }
 
 // held counts the read and write locks of all shim mutexes that are currently held (a sequential harness can
 // assert that it is zero between operations: a lock leaked on an error path is otherwise only seen as a hang).
+//
+// It is a plain integer touched only inside //go:norace functions: an atomic here would be a synchronisation
+// operation of its own and would order the accesses of different threads for the race detector (which is
+// exactly what the scheduler's hand-off avoids). Harness threads run one at a time, so plain updates are exact.
 var held int64
 
 // Held returns the number of shim locks currently held.
-func Held() int64 { return atomic.LoadInt64(&held) }
+//
+//go:norace
+func Held() int64 { return held }
+
+//go:norace
+func addHeld(d int64) { held += d }
 
 func (m *RWMutex) Lock() {
 	if h := Hook; h != nil {
@@ -47,11 +56,11 @@ func (m *RWMutex) Lock() {
 		h(OpLockAcquire, uintptr(unsafe.Pointer(m)))
 	}
 	m.mu.Lock()
-	atomic.AddInt64(&held, 1)
+	addHeld(1)
 }
 
 func (m *RWMutex) Unlock() {
-	atomic.AddInt64(&held, -1)
+	addHeld(-1)
 	m.mu.Unlock()
 	if h := Hook; h != nil {
 		h(OpUnlock, uintptr(unsafe.Pointer(m)))
@@ -63,11 +72,11 @@ func (m *RWMutex) RLock() {
 		h(OpRLock, uintptr(unsafe.Pointer(m)))
 	}
 	m.mu.RLock()
-	atomic.AddInt64(&held, 1)
+	addHeld(1)
 }
 
 func (m *RWMutex) RUnlock() {
-	atomic.AddInt64(&held, -1)
+	addHeld(-1)
 	m.mu.RUnlock()
 	if h := Hook; h != nil {
 		h(OpRUnlock, uintptr(unsafe.Pointer(m)))
@@ -93,24 +102,28 @@ func (m *Mutex) TryLock() bool { return m.mu.TryLock() }
 
 // Pool is a deterministic LIFO free list: Get returns the most recently Put
 // object - maximal reuse, the adversarial choice for pooled request contexts.
+//
+// Like sync.Pool it orders only the Put of an object before the Get that
+// returns that very object (a per-slot atomic); the stack itself is plain
+// memory handled in //go:norace functions, because a mutex around it would
+// order ALL pool operations of all threads for the race detector. Harness
+// threads run one at a time (or the program is sequential), so that is exact.
 type Pool struct {
 	New   func() any
-	mu    sync.Mutex
-	items []any
+	items []*poolSlot
 }
+
+type poolSlot struct{ v atomic.Value }
+
+type boxed struct{ x any }
 
 func (p *Pool) Get() any {
 	if h := Hook; h != nil {
 		h(OpPoolGet, uintptr(unsafe.Pointer(p)))
 	}
-	p.mu.Lock()
-	if n := len(p.items); n > 0 {
-		x := p.items[n-1]
-		p.items = p.items[:n-1]
-		p.mu.Unlock()
-		return x
+	if s := p.pop(); s != nil {
+		return s.v.Load().(boxed).x // acquire: ordered after the Put of this object
 	}
-	p.mu.Unlock()
 	if p.New != nil {
 		return p.New()
 	}
@@ -121,14 +134,35 @@ func (p *Pool) Put(x any) {
 	if h := Hook; h != nil {
 		h(OpPoolPut, uintptr(unsafe.Pointer(p)))
 	}
-	p.mu.Lock()
-	p.items = append(p.items, x)
-	p.mu.Unlock()
+	s := &poolSlot{}
+	s.v.Store(boxed{x}) // release
+	p.push(s)
+}
+
+//go:norace
+func (p *Pool) pop() *poolSlot {
+	n := len(p.items)
+	if n == 0 {
+		return nil
+	}
+	s := p.items[n-1]
+	p.items[n-1] = nil
+	p.items = p.items[:n-1]
+	return s
+}
+
+//go:norace
+func (p *Pool) push(s *poolSlot) {
+	if len(p.items) == cap(p.items) { // grow by hand: append's helper is race-annotated
+		n := make([]*poolSlot, len(p.items), 2*cap(p.items)+8)
+		copy(n, p.items)
+		p.items = n
+	}
+	p.items = p.items[:len(p.items)+1]
+	p.items[len(p.items)-1] = s
 }
 
 // Drain empties the pool (used between executions so that each starts alike).
-func (p *Pool) Drain() {
-	p.mu.Lock()
-	p.items = nil
-	p.mu.Unlock()
-}
+//
+//go:norace
+func (p *Pool) Drain() { p.items = nil }
